@@ -85,7 +85,7 @@ def Body(nid: int, x: int = -1, a: ty.Any = None, b: ty.Any = None, c: ty.Any = 
     """Injective tagging body: output determines node, split index and every input value."""
     from harness.lib import fakeworker as fw
     jid = ("n%d" % nid, x)
-    sync = fw.CTL.mode == "sync"
+    sync = fw.CTL.mode in ("sync", "rerun_sync")
     fw.CTL.bodies.append(jid)
     if sync:
         fw.CTL.evlog.append(("L", jid))
@@ -100,10 +100,55 @@ def Body(nid: int, x: int = -1, a: ty.Any = None, b: ty.Any = None, c: ty.Any = 
         raise Exception("verif-fail n%d %d" % (nid, x))
     if sync:
         fw.CTL.evlog.append(("F", jid, True))
+    gen_file = os.environ.get("VERIF_GEN_FILE")
+    if gen_file:
+        # "rerun over a warm cache" scenarios: the body is not a pure function of its inputs (it reads the
+        # generation of the run from a file outside the cache), so a stale upstream value is visible downstream
+        return [nid, x, a, b, c, int(open(gen_file).read())]
     return [nid, x, a, b, c]
 
 
+@python.define
+def BodyS(nid: int, p: int, q: int, r: int) -> ty.Any:
+    """Body of a node split over three fields (state-propagating shapes of C17)."""
+    return [nid, [p, q, r]]
+
+
+@python.define
+def BodyD(nid: int, src: ty.Any) -> ty.Any:
+    """Consumer that inherits the state left by a partial combiner and reads its group element-wise."""
+    return [nid, _canon(src)]
+
+
+def make_state_workflow(nodes):
+    """nodes: [dict(id, kind='s3', dims=[np, nq, nr], combine=[...]), dict(id, kind='down', preds=[up])]."""
+    names = ["o%d" % n["id"] for n in nodes]
+
+    @workflow.define(outputs={nm: ty.Any for nm in names})
+    def VerifStateWf(spec: ty.Any):
+        outs = {}
+        for n in spec:
+            n = dict(n)
+            if n["kind"] == "s3":
+                dims = n["dims"]
+                t = BodyS(nid=n["id"]).split(["p", "q", "r"], p=list(range(dims[0])), q=list(range(dims[1])),
+                                             r=list(range(dims[2])))
+                if n["combine"]:
+                    t = t.combine(list(n["combine"]))
+            else:
+                t = BodyD(nid=n["id"], src=outs[n["preds"][0]])
+            node = workflow.add(t, name="n%d" % n["id"])
+            outs[n["id"]] = node.out
+        return tuple(outs[dict(m)["id"]] for m in spec)
+
+    spec = tuple(tuple(sorted((k, tuple(v) if isinstance(v, list) else v) for k, v in n.items()))
+                 for n in nodes)
+    return VerifStateWf(spec=spec)
+
+
 def make_workflow(nodes, failset=(), dur=()):
+    if any(n.get("kind") for n in nodes):
+        return make_state_workflow(nodes)
     """nodes: list of dict(id=int, preds=[ids] (<=3), split=None|int).  Split nodes are combined, so
     the job count of a node is fixed by the spec (1, or `split`)."""
     names = ["o%d" % n["id"] for n in nodes]
@@ -275,6 +320,18 @@ def _canon(v):
         return repr(type(v).__name__)
 
 
+def _gens(v, acc):
+    if isinstance(v, (list, tuple)):
+        if len(v) == 6 and isinstance(v[0], int) and isinstance(v[5], int):
+            acc.add(v[5])
+            for u in v[2:5]:
+                _gens(u, acc)
+        else:
+            for u in v:
+                _gens(u, acc)
+    return acc
+
+
 def _failed_names(msg):
     import re
     return sorted(set(re.findall(r"Job '(n\d+(?:\(\d+\))?)',", msg)))
@@ -297,22 +354,40 @@ def run_case(case):
         else:
             os.environ.pop("VERIF_SIDE_FILE", None)
         wf = make_workflow(case["nodes"], failset=case.get("fail") or [], dur=case.get("dur") or [])
+        cache = os.path.join(tmp, "cache")
+        rerun = mode.startswith("rerun")
+        if rerun:
+            # first run (debug worker) fills the cache; the observed run is the forced re-run over it
+            gen_file = os.path.join(tmp, "generation")
+            os.environ["VERIF_GEN_FILE"] = gen_file
+            with open(gen_file, "w") as f:
+                f.write("1")
+            with Submitter(worker="debug", cache_root=cache) as sub:
+                sub(wf, raise_errors=True)
+            with open(gen_file, "w") as f:
+                f.write("2")
+            CTL.reset(case.get("oracle") or [], [])
+            CTL.mode = mode
+            wf = make_workflow(case["nodes"], failset=case.get("fail") or [], dur=case.get("dur") or [])
+        else:
+            os.environ.pop("VERIF_GEN_FILE", None)
         kw = {}
         if case.get("k") is not None:
             kw["max_concurrent"] = int(case["k"])
-        if mode == "async":
+        if mode in ("async", "rerun", "state"):
             worker = FakeWorker
-        elif mode == "sync":
+        elif mode in ("sync", "rerun_sync", "state_sync"):
             worker = "debug"
         else:
             worker = "cf"
             kw["n_procs"] = int(case.get("n_procs") or 2)
-        cache = os.path.join(tmp, "cache")
         try:
             with Submitter(worker=worker, cache_root=cache, **kw) as sub:
-                res = sub(wf, raise_errors=True)
+                res = sub(wf, raise_errors=True, rerun=rerun)
             obs["outcome"] = "ok"
             obs["outputs"] = _canon([getattr(res.outputs, "o%d" % n["id"]) for n in case["nodes"]])
+            if rerun:
+                obs["generations"] = sorted(_gens(obs["outputs"], set()))
         except Exception as e:  # noqa
             msg = str(e)
             obs["outcome"] = "error"
